@@ -61,8 +61,8 @@ def check(run):
     for (stream, exp), l, o in zip(seqs, lines, io):
         if o == "<crash>":
             continue
-        if "ISTREAM-DIFFERS" in o:
-            oracle_fail.append((cfg, l[:200], "std::istream and custom reader agree", o[:300]))
+        if "STREAM-DIFFERS" in o:
+            oracle_fail.append((cfg, l[:200], "std::istream, block-wise std::istream, Arduino Stream and custom reader agree", o[:300]))
             continue
         calls = o.strip().split(" ")
         msg = None
@@ -114,8 +114,8 @@ def check(run):
     for (stream, exp), l, o in zip(mseqs, lines, io):
         if o == "<crash>":
             continue
-        if "ISTREAM-DIFFERS" in o:
-            oracle_fail.append((cfg, l[:200], "std::istream and custom reader agree", o[:300]))
+        if "STREAM-DIFFERS" in o:
+            oracle_fail.append((cfg, l[:200], "std::istream, block-wise std::istream, Arduino Stream and custom reader agree", o[:300]))
             continue
         calls = o.strip().split(" ")
         want = [f"Ok@{pos}:{d}" for d, pos in exp] + [f"EmptyInput@{len(stream)}:n"]
